@@ -30,11 +30,16 @@ Qed.
 Lemma import_text_inj p q :
   nospace (fst p) = true -> nospace (fst q) = true -> import_text p = import_text q -> p = q.
 Proof.
-  destruct p as [m n], q as [m' n']. unfold import_text. cbn [fst snd]. intros Hp Hq E.
-  apply app_inv_head in E.
-  change (lit " import ") with (32%N :: lit "import ") in E.
-  cbn [app] in E. destruct (nospace_split _ _ _ _ Hp Hq E) as [-> E'].
-  apply app_inv_head in E'. apply app_inv_tail in E'. subst. reflexivity.
+  destruct p as [m [n|]], q as [m' [n'|]]; unfold import_text; cbn [fst snd]; intros Hp Hq E.
+  - apply app_inv_head in E.
+    change (lit " import ") with (32%N :: lit "import ") in E.
+    cbn [app] in E. destruct (nospace_split _ _ _ _ Hp Hq E) as [-> E'].
+    apply app_inv_head in E'. apply app_inv_tail in E'. subst. reflexivity.
+  - change (lit "from ") with (102%N :: lit "rom ") in E.
+    change (lit "import ") with (105%N :: lit "mport ") in E. cbn [app] in E. discriminate E.
+  - change (lit "from ") with (102%N :: lit "rom ") in E.
+    change (lit "import ") with (105%N :: lit "mport ") in E. cbn [app] in E. discriminate E.
+  - apply app_inv_head in E. apply app_inv_tail in E. subst. reflexivity.
 Qed.
 
 Lemma ins_line_in p l x : In x (ins_line p l) -> x = p \/ In x l.
@@ -84,22 +89,27 @@ Proof.
 Qed.
 
 (* ---------------------------------------------------------------- the namespace *)
-Lemma env_lookup_in E n m : env_lookup E n = Some m -> In (m, n) E.
+Lemma env_lookup_in E n b :
+  env_lookup E n = Some b -> exists p, In p E /\ bound_name p = n /\ b = (fst p, is_from p).
 Proof.
-  induction E as [|[m' x] r IH]; cbn; [discriminate|].
-  destruct (env_lookup r n) as [m''|].
-  - intros H. inversion H; subst. right. apply IH. reflexivity.
-  - destruct (str_eqb_spec x n) as [->|Hn]; [|discriminate].
-    intros H. inversion H; subst. left. reflexivity.
+  induction E as [|p r IH]; cbn [env_lookup]; [discriminate|].
+  destruct (env_lookup r n) as [b'|].
+  - intros H. inversion H; subst. destruct (IH eq_refl) as [p' [Hin Hp']].
+    exists p'. split; [right; exact Hin|exact Hp'].
+  - destruct (str_eqb_spec (bound_name p) n) as [<-|Hn]; [|discriminate].
+    intros H. inversion H. exists p. split; [left; reflexivity|split; reflexivity].
 Qed.
 
-Lemma env_lookup_some E n m : In (m, n) E -> exists m', env_lookup E n = Some m'.
+Lemma env_lookup_some E p : In p E -> exists b, env_lookup E (bound_name p) = Some b.
 Proof.
-  induction E as [|[m' x] r IH]; cbn; [tauto|].
+  induction E as [|q r IH]; cbn [env_lookup In]; [tauto|].
   intros [H|H].
-  - inversion H; subst. destruct (env_lookup r n); [eauto|]. rewrite str_eqb_refl. eauto.
-  - destruct (IH H) as [m'' ->]. eauto.
+  - subst q. destruct (env_lookup r (bound_name p)); [eauto|]. rewrite str_eqb_refl. eauto.
+  - destruct (IH H) as [b ->]. eauto.
 Qed.
+
+Lemma import_pair_fst c : fst (import_pair c) = fst c.
+Proof. unfold import_pair. destruct (str_eqb (fst c) m_stdlib_datetime); reflexivity. Qed.
 
 (* ---------------------------------------------------------------- types *)
 Lemma types_in W v u c : In u (subs W v) -> type_of u = Some c -> In c (types W v).
@@ -128,7 +138,7 @@ Qed.
 Lemma pairs_ns W v : wf W v = true -> Forall ns_line (map import_pair (types W v)).
 Proof.
   intros Hwf. apply Forall_forall. intros p Hp. apply in_map_iff in Hp as [c [<- Hc]].
-  apply types_inv in Hc as [u [Hu Hc]]. unfold ns_line, import_pair. cbn [fst].
+  apply types_inv in Hc as [u [Hu Hc]]. unfold ns_line. rewrite import_pair_fst.
   unfold wf in Hwf. rewrite forallb_forall in Hwf. eapply type_nospace; [apply Hwf; exact Hu|exact Hc].
 Qed.
 
@@ -142,22 +152,25 @@ Proof.
   { apply in_map. eapply types_in; eauto. }
   assert (Hin' : In (import_pair c) (imports W v)).
   { unfold imports. apply sort_lines_in_rev; [apply pairs_ns; exact Hwf|exact Hin]. }
-  unfold env_of_imports. unfold import_pair in Hin'.
-  destruct (env_lookup_some _ _ _ Hin') as [m' Hm']. rewrite Hm'. f_equal.
-  apply env_lookup_in in Hm'. unfold imports in Hm'. apply sort_lines_in in Hm'.
+  unfold env_of_imports.
+  destruct (env_lookup_some _ _ Hin') as [b Hb]. rewrite Hb. f_equal.
+  destruct (env_lookup_in _ _ _ Hb) as [p' [Hp' [Hname ->]]].
+  unfold imports in Hp'. apply sort_lines_in in Hp'.
   unfold g_imports, g_names in Hg. rewrite forallb_forall in Hg.
-  specialize (Hg _ Hm'). apply andb_true_iff in Hg as [_ Hg]. rewrite forallb_forall in Hg.
-  specialize (Hg _ Hin). unfold pair_compatible, import_pair in Hg. cbn [fst snd] in Hg.
-  rewrite str_eqb_refl in Hg. cbn [negb orb] in Hg. apply str_eqb_true in Hg. exact Hg.
+  specialize (Hg _ Hp'). apply andb_true_iff in Hg as [_ Hg]. rewrite forallb_forall in Hg.
+  specialize (Hg _ Hin). unfold pair_compatible in Hg.
+  rewrite Hname, str_eqb_refl in Hg. cbn [negb orb] in Hg.
+  apply andb_true_iff in Hg as [Hf Hk]. apply str_eqb_true in Hf. apply eqb_prop in Hk.
+  rewrite Hf, Hk, import_pair_fst. reflexivity.
 Qed.
 
 Lemma imports_builtins_free W v :
   g_imports W v = true -> builtins_free (env_of_imports (imports W v)).
 Proof.
-  intros Hg n Hn. unfold env_of_imports. destruct (env_lookup (imports W v) n) as [m|] eqn:E; [|reflexivity].
-  apply env_lookup_in in E. unfold imports in E. apply sort_lines_in in E.
+  intros Hg n Hn. unfold env_of_imports. destruct (env_lookup (imports W v) n) as [b|] eqn:E; [|reflexivity].
+  destruct (env_lookup_in _ _ _ E) as [p [Hp [Hname _]]]. unfold imports in Hp. apply sort_lines_in in Hp.
   unfold g_imports, g_names in Hg. rewrite forallb_forall in Hg.
-  specialize (Hg _ E). apply andb_true_iff in Hg as [Hg _]. cbn [snd] in Hg. rewrite Hn in Hg. discriminate Hg.
+  specialize (Hg _ Hp). apply andb_true_iff in Hg as [Hg _]. rewrite Hname, Hn in Hg. discriminate Hg.
 Qed.
 
 (* ---------------------------------------------------------------- the theorem *)
@@ -169,12 +182,11 @@ Theorem pycode_evals_back W o :
   exists o', eval W (env_of_imports (imports W o)) (repr W o) = Some o' /\ veq true o' o = true.
 Proof.
   intros Hwf Hg. unfold guard in Hg.
-  apply andb_true_iff in Hg as [Hg Hstd]. apply andb_true_iff in Hg as [Himp Hinit].
+  apply andb_true_iff in Hg as [Himp Hinit].
   exists (norm W o). split.
   - apply eval_repr_norm; [apply imports_builtins_free; exact Himp|].
-    intros u Hu. unfold ok1. repeat split.
+    intros u Hu. unfold ok1. split.
     + eapply forallb_In; [exact Hwf|exact Hu].
-    + eapply forallb_In; [exact Hstd|exact Hu].
     + apply imports_resolve; assumption.
   - apply veq_norm. intros u Hu. unfold ok2. repeat split.
     + eapply forallb_In; [exact Hwf|exact Hu].
@@ -200,10 +212,14 @@ Proof. reflexivity. Qed.
 Lemma heads_EDict kv : heads (EDict kv) = heads_pairs kv.
 Proof. reflexivity. Qed.
 
-Definition gh (W : world) (u : value) : bool := wf_local W u && g_std_local u.
+Definition gh (W : world) (u : value) : bool := wf_local W u.
 
 Definition named (W : world) (v : value) (n : str) : Prop :=
-  is_builtin n = true \/ exists u c, In u (subs W v) /\ type_of u = Some c /\ hd [] (snd c) = n.
+  is_builtin n = true \/ exists u c, In u (subs W v) /\ type_of u = Some c /\ bound_name (import_pair c) = n.
+
+Lemma import_pair_from c :
+  str_eqb (fst c) m_stdlib_datetime = false -> bound_name (import_pair c) = hd [] (snd c).
+Proof. intros H. unfold import_pair. rewrite H. reflexivity. Qed.
 
 Lemma heads_map_EInt l : flat_map heads (map EInt l) = [].
 Proof. induction l; cbn; auto. Qed.
@@ -211,10 +227,10 @@ Proof. induction l; cbn; auto. Qed.
 Lemma heads_scalar W v n :
   is_container v = false -> gh W v = true -> In n (heads (repr W v)) -> named W v n.
 Proof.
-  intros Hc Hgh Hn. unfold gh in Hgh. apply andb_true_iff in Hgh as [Hwf Hstd].
-  assert (Self : forall c, type_of v = Some c -> hd [] (snd c) = n -> named W v n).
+  intros Hc Hwf Hn. unfold gh in Hwf.
+  assert (Self : forall c, type_of v = Some c -> bound_name (import_pair c) = n -> named W v n).
   { intros c H1 H2. right. exists v, c. split; [apply subs_self|auto]. }
-  destruct v; try discriminate Hc; try discriminate Hstd; cbn [repr] in Hn; try (cbn in Hn; destruct Hn; fail).
+  destruct v; try discriminate Hc; cbn [repr] in Hn; try (cbn in Hn; destruct Hn; fail).
   - (* float *) destruct (fl_isfinite bits); [destruct Hn|].
     rewrite heads_ECall in Hn. cbn [flat_map heads heads_kws app] in Hn.
     destruct Hn as [<-|[]]. left. reflexivity.
@@ -230,10 +246,13 @@ Proof.
   - rewrite heads_ECall in Hn. unfold raw_dq in Hn.
     destruct (dq_safe d); cbn [flat_map heads heads_kws app] in Hn;
       destruct Hn as [<-|[]]; eapply Self; reflexivity.
+  - (* stdlib datetime *) rewrite heads_ECall, heads_map_EInt in Hn. cbn [heads_kws app] in Hn.
+    destruct Hn as [<-|[]]. eapply Self; reflexivity.
   - (* enum *) destruct c as [md q]. cbn [wf_local snd fst] in Hwf.
-    apply andb_true_iff in Hwf as [Hwf _]. apply andb_true_iff in Hwf as [_ Hq].
+    apply andb_true_iff in Hwf as [Hwf _]. apply andb_true_iff in Hwf as [Hwf Hdt].
+    apply andb_true_iff in Hwf as [_ Hq]. apply negb_true_iff in Hdt.
     destruct q as [|x q]; [discriminate Hq|]. cbn [snd app heads] in Hn. destruct Hn as [<-|[]].
-    eapply Self; reflexivity.
+    eapply Self; [reflexivity|]. rewrite import_pair_from by exact Hdt. reflexivity.
 Qed.
 
 Lemma named_mono W v v' n :
@@ -297,10 +316,13 @@ Proof.
     rewrite heads_ECall in Hn. cbn [flat_map app] in Hn.
     apply in_app_or in Hn as [Hn|Hn].
     + right. exists (VObj c fs), c. split; [apply subs_self|]. split; [reflexivity|].
+      pose proof (Hen (VObj c fs) (subs_self _ _)) as Hwf. unfold gh in Hwf. cbn [wf_local] in Hwf.
+      rewrite Ef in Hwf. apply andb_true_iff in Hwf as [Hwf _]. apply andb_true_iff in Hwf as [_ Hdt].
+      apply negb_true_iff in Hdt. rewrite import_pair_from by exact Hdt.
       destruct (snd c) as [|x q]; [destruct Hn|]. destruct Hn as [<-|[]]. reflexivity.
     + assert (Hen' : forall u, In u (subs_fields W fds fs) -> gh W u = true)
         by (intros u Hu; apply Hen; rewrite subs_VObj, Ef; right; exact Hu).
-      assert (X : exists u c0, In u (subs_fields W fds fs) /\ type_of u = Some c0 /\ hd [] (snd c0) = n
+      assert (X : exists u c0, In u (subs_fields W fds fs) /\ type_of u = Some c0 /\ bound_name (import_pair c0) = n
                   \/ is_builtin n = true).
       { clear Hen Ef. revert fds Hn Hen'. induction H as [|[m x] r Hx Hr IH]; intros fds Hn Hen'.
         - destruct fds; destruct Hn.
@@ -319,15 +341,16 @@ Proof.
 Qed.
 
 Theorem imports_sufficient W o :
-  wf W o = true -> g_std W o = true ->
+  wf W o = true ->
   forall n, In n (heads (repr W o)) ->
-  is_builtin n = true \/ exists m, In (m, n) (imports W o).
+  is_builtin n = true \/ exists p, In p (imports W o) /\ bound_name p = n.
 Proof.
-  intros Hwf Hstd n Hn.
+  intros Hwf n Hn.
   assert (Hgh : forall u, In u (subs W o) -> gh W u = true).
-  { intros u Hu. unfold gh. rewrite (forallb_In _ _ _ Hwf Hu), (forallb_In _ _ _ Hstd Hu). reflexivity. }
+  { intros u Hu. unfold gh. exact (forallb_In _ _ _ Hwf Hu). }
   destruct (heads_repr W o Hgh n Hn) as [Hb|[u [c [Hu [Hc Hh]]]]];
     [left; exact Hb|].
-  right. exists (fst c). unfold imports. apply sort_lines_in_rev; [apply pairs_ns; exact Hwf|].
-  apply in_map_iff. exists c. split; [unfold import_pair; rewrite Hh; reflexivity|eapply types_in; eauto].
+  right. exists (import_pair c). split; [|exact Hh].
+  unfold imports. apply sort_lines_in_rev; [apply pairs_ns; exact Hwf|].
+  apply in_map. eapply types_in; eauto.
 Qed.
